@@ -125,6 +125,10 @@ class TC(fm.TimeComponent):
             v = self.inputs[f"In{i}"].pull_data(nt)
             vals.append(round(float(np.ravel(fm.data.get_magnitude(v))[0]), 9))
         self._time = nt
+        if self.spec.get("finish_at") is not None and hours(nt) >= self.spec["finish_at"]:
+            # the component declares that it has no more steps to make (as CsvReader does at its last row)
+            self.status = fm.ComponentStatus.FINISHED
+            self.tr.events.append(("finished", self.idx, hours(nt)))
         self.tr.events.append(("got", self.idx, hours(nt), vals))
         # "mix": the published value depends on what was pulled, so that a wrong value propagates downstream (C05)
         extra = 0.001 * sum(vals) if self.spec.get("mix") else 0.0
